@@ -33,8 +33,28 @@ fn content(rng: &mut Rng, big: bool) -> String {
     }
 }
 
+/// Directory names beyond letters, digits, `.`, `_`, `-` (raw; the case line carries them escaped,
+/// `c03fs::escape_path`): blanks and other white space in front, behind and inside, every ASCII
+/// punctuation character, control characters, a leading / trailing dot.  Disjoint from `ODD_FILES`.
+pub const ODD_DIRS: [&str; 40] = [
+    " d", "d ", "d x", "  d  ", "\td", "d\t", "d\n", "\rd", "d\x0b", "\x0cd", "d+1", "d=2", "d,3", "(d)", "d'4", "d!", "@d", "#d",
+    "$d", "d%5", "d%20", "d&6", "[d]", "d~", "d^", "{d}", "d;", "d:", ".d", "d.", "d\\e", "d*", "d?", "d\"", "d<", "d>",
+    "d|", "\x01d", "d\x7f", "`d",
+];
+/// File names of the same kinds (a name made of blanks only included)
+pub const ODD_FILES: [&str; 48] = [
+    " f0", "f0 ", "f 0", " ", "  ", " f1.bin", "f1.bin ", "f1 .bin", "  f  ", "\tf", "f\t", "f\n", "\nf", "f\r", "\x0bf", "f\x0c",
+    "f+", "f=1", "f,1", "(f)", "f'", "f!", "@f", "#f", "$f", "f%", "f%20", "%", "f&", "[f]", "x~", "f^", "{f}", "f;1", "f:1", ".f",
+    "f.", "f\\g", "f*", "f?", "f\"", "f<", "f>", "f|", "\x01f", "f\x7f", "`f", "f0 .",
+];
+
 /// directory names start with `d`/`D`, file names with `f`/`F`/`x`: a name is never both
 fn rel_path(rng: &mut Rng) -> String {
+    let p = rel_path_raw(rng);
+    escape_path(&p)
+}
+
+fn rel_path_raw(rng: &mut Rng) -> String {
     let depth = match rng.below(8) {
         0..=2 => 0,
         3 | 4 => 1,
@@ -47,10 +67,18 @@ fn rel_path(rng: &mut Rng) -> String {
         // includes names that are proper prefixes of a sibling whose next character sorts before
         // '/' ("d" beside "d.3" / "d-x", "d0" beside "d0.bak" / "d0-old"): path order and string
         // order of the relative paths then differ
-        p += *rng.pick(&["d0", "d1", "Dir_2", "d.3", "sqpack", "d-x", "d", "d0.bak", "d0-old", "d"]);
+        if rng.chance(1, 6) {
+            p += *rng.pick(&ODD_DIRS);
+        } else {
+            p += *rng.pick(&["d0", "d1", "Dir_2", "d.3", "sqpack", "d-x", "d", "d0.bak", "d0-old", "d"]);
+        }
         p.push('/');
     }
-    p += *rng.pick(&["f0", "f1.bin", "F2.TXT", "f_3", "f-4.dat", "x.5", "f6", "f7.ver"]);
+    if rng.chance(1, 4) {
+        p += *rng.pick(&ODD_FILES);
+    } else {
+        p += *rng.pick(&["f0", "f1.bin", "F2.TXT", "f_3", "f-4.dat", "x.5", "f6", "f7.ver"]);
+    }
     p
 }
 
@@ -135,6 +163,27 @@ pub fn generate(thorough: bool, seed: u64, out: &mut dyn Write) {
         writeln!(out, "cbytes a=d0/f0:~{}.7 b=-", n).unwrap();
         writeln!(out, "cbytes a=d0/f0:~{}.7 b=d0/f0:~{}.9", n, n).unwrap();
         writeln!(out, "cbytes a=f0:01 b=d1/Dir_2/f1.bin:~{}.3", n).unwrap();
+    }
+    // names beyond letters / digits / `._-` (blanks in front, behind, inside; punctuation; control
+    // characters): every odd file name added, removed, changed and unchanged — at the top level and
+    // below a directory — and every odd directory name in first and in inner position
+    for (i, f) in ODD_FILES.iter().enumerate() {
+        let f = escape_path(f);
+        let (c, c2) = (format!("~{}.{}", 40 + i, i), format!("~{}.{}", 33 + i, i + 1));
+        writeln!(out, "pair a=- b={}:{}", f, c).unwrap();
+        writeln!(out, "pair a={}:{} b=-", f, c).unwrap();
+        writeln!(out, "pair a={}:{};f1:01 b={}:{};f1:02", f, c, f, c).unwrap();
+        writeln!(out, "pair a={}:{} b={}:{}", f, c, f, c2).unwrap();
+        writeln!(out, "pair a=d0/{}:{};d1/{}:{};f0:aa b=d0/{}:{};d2/{}:{};f0:aa", f, c, f, c, f, c2, f, c).unwrap();
+        writeln!(out, "cbytes a=- b={}:~17.3", f).unwrap();
+        writeln!(out, "cbytes a=d0/{}:~17.3 b=-", f).unwrap();
+    }
+    for (i, d) in ODD_DIRS.iter().enumerate() {
+        let d = escape_path(d);
+        let (c, c2) = (format!("~{}.{}", 50 + i, i), format!("~{}.{}", 29 + i, i + 1));
+        writeln!(out, "pair a={}/f0:{};{}/f1:{} b={}/f0:{};{}/f2:{}", d, c, d, c, d, c2, d, c).unwrap();
+        writeln!(out, "pair a=d0/{}/f0:{};f1:01 b=d0/{}/f0:{};d0/{}/{}/f3:{}", d, c, d, c2, d, d, c).unwrap();
+        writeln!(out, "cbytes a=- b={}/f0:~17.3", d).unwrap();
     }
     let n = if thorough { 30_000 } else { 150 };
     for i in 0..n {
